@@ -380,9 +380,9 @@ def drive(req_text, timeout=None):
     is split into contiguous chunks answered by several driver processes; the answers are concatenated in order"""
     timeout = timeout or STREAM_TIMEOUT[0]
     lines = req_text.split("\n")
-    if len(lines) < 4000 and len(req_text) < 8_000_000:
+    if len(lines) < 4000 and len(req_text) < 1_500_000:
         return _drive_one(req_text, timeout).split("\n")
-    n = min(NPROC, max(2, len(lines) // 1500))
+    n = min(NPROC, max(2, len(lines) // 1500, len(req_text) // 1_000_000), max(1, len(lines) - 1))
     size = (len(lines) + n - 1) // n
     chunks = ["\n".join(lines[i:i + size]) + "\n" for i in range(0, len(lines), size)]
     from concurrent.futures import ThreadPoolExecutor
@@ -956,6 +956,9 @@ def stream_s2(cx, rate0_only=False):
     profs = dict(cx.T["trace"])
     if cx.prop == "C15":
         profs["c15"] = 336 if cx.tier == "quick" else 6000
+    if cx.prop == "C11":
+        # outputs beyond 64 KiB on the framing protocols: anything the body loop does "every N bytes" shows only there
+        profs["big"] = 2 if cx.tier == "quick" else 32
     for prof, n in profs.items():
         for (req, out) in run_trace(n, cx.seed * 7919 + 13, prof, "0" if cx.P["unsafe"] == "0" else "mix"):
             r = toks(req)
@@ -1007,7 +1010,7 @@ def stream_s2(cx, rate0_only=False):
                 det = out.split(" FAIL ", 1)[1]
                 if cx.prop == "C17" and det.startswith("C17-direct"):
                     cx.failing.append(("S2", case_of(req), det[:400]))
-                elif cx.prop == "C11" and re.match(r"(body_emitted|tail_\d+_>|target_\d+_outside)", det):
+                elif cx.prop == "C11" and re.match(r"(body_emitted|tail_\d+_>|target_\d+_outside|step_\d+:_emitted_bytes_\w+_are_more_than_one_instruction)", det):
                     cx.failing.append(("S2", case_of(req), det[:400]))
                 else:
                     bad.append((case_of(req), out))
